@@ -117,3 +117,11 @@ Proof.
   - replace (Z.of_nat (S (length stack')) >? 0) with true by lia.
     replace (Z.to_nat (Z.of_nat i + 1)) with (S i) by lia. reflexivity.
 Qed.
+
+(* the hidden-name rule of scan and of check, the totals-row test of the text and Markdown overviews *)
+Lemma tie_hidden_rule c r :
+  negb (is_hidden (c :: r)) = scan_keeps_file c /\ negb (is_hidden (c :: r)) = scan_keeps_dir c /\
+  negb (is_hidden (c :: r)) = check_keeps_file c /\ negb (is_hidden (c :: r)) = check_keeps_dir c.
+Proof. unfold is_hidden, scan_keeps_file, scan_keeps_dir, check_keeps_file, check_keeps_dir. repeat split; reflexivity. Qed.
+Lemma tie_totals_row n : (1 <? n) = text_totals_row n /\ (1 <? n) = md_totals_row n.
+Proof. unfold text_totals_row, md_totals_row. split; lia. Qed.
